@@ -17,6 +17,10 @@ class VfError(Exception):
     """The 'arbitrary exception' raised by scripted callbacks."""
 
 
+class VfBase(BaseException):
+    """An 'arbitrary exception' that is not an Exception subclass (like KeyboardInterrupt / SystemExit / CancelledError)."""
+
+
 class Stuck(BaseException):
     """The loop blocks forever / spins without progress: the watchdog aborts run()."""
 
